@@ -36,6 +36,13 @@ CKPT = 'ranking_checkpoint_tmp.tsv'
 MI_HEURISTICS = {'MI', 'MI-numba-randomized', 'MI-numba-3mr', 'max-value-coverage', 'correlation-Pearson', 'AMI', 'Constant'}
 
 
+import time as _time_mod
+import types as _types
+
+# the real functions, captured before any simulated process patches the module
+_REAL_TIME_FUNCS = _types.SimpleNamespace(**{k: getattr(_time_mod, k) for k in dir(_time_mod) if not k.startswith('__')})
+
+
 class _SimTime:
     def __init__(self, sim):
         self._sim = sim
@@ -63,8 +70,7 @@ class _SimTime:
     perf_counter = monotonic
 
     def __getattr__(self, name):
-        import time as _t
-        return getattr(_t, name)
+        return getattr(_REAL_TIME_FUNCS, name)
 
 
 class _ShortSleep:
@@ -675,9 +681,16 @@ def simulated_process(spec, phase, root):
         # stub-fidelity run (DESIGN 4.5): the real pathos pool with real forked workers; only the polling sleep is shortened
         core_ranking.time = _ShortSleep(sim)
     else:
-        core_ranking.time = _SimTime(sim)
+        st = _SimTime(sim)
+        core_ranking.time = st
         core_ranking.timer = lambda: sim.now
         task_ranking.Pool = pool_factory
+        # every clock the simulated process can read is the simulator's: also for code that imports `time` itself
+        import time as _real_time
+        _real_time.sleep = st.sleep
+        _real_time.time = st.time
+        _real_time.monotonic = st.monotonic
+        _real_time.perf_counter = st.monotonic
     fs.install()
     argv = build_argv(cli, os.path.join(root, 'data'))
     old_argv = sys.argv
